@@ -307,7 +307,7 @@ T_MIX = G.Table([
     (3, G.o_inpub), (2, G.o_inrel), (3, G.o_fire), (3, G.o_advance), (2, G.o_window), (1, G.o_timeout),
     (1, G.o_bandwidth), (2, G.o_lose), (3, G.o_reconnect), (1, G.o_reconnect_noack), (2, G.o_connack),
     (2, G.o_disconnect), (1, G.o_pingresp), (1, G.o_handlers), (1, G.o_settle), (1, G.o_connect),
-    (2, G.o_resume_with_publish), (2, G.o_arm), (1, G.o_segment),
+    (2, G.o_resume_with_publish), (2, G.o_arm), (1, G.o_segment), (1, G.o_late_connack),
 ])
 
 
@@ -482,7 +482,7 @@ T_RETRY = G.Table([
     (8, G.o_publish_q12), (4, G.o_subscribe), (4, G.o_unsubscribe), (12, G.o_fire_many), (3, G.o_advance),
     (4, G.o_pubrec), (2, G.o_ack_good), (2, G.o_timeout), (2, G.o_bandwidth), (1, G.o_window),
     (1, G.o_lose_reconnect_persist), (1, o_retrytail), (1, G.o_publish), (2, G.o_resume_with_publish), (3, G.o_connack_ok),
-    (1, G.o_reconnect_noack),
+    (1, G.o_reconnect_noack), (3, G.o_late_connack),
 ])
 
 
@@ -677,7 +677,7 @@ T_PERS = G.Table([
     (12, G.o_publish_q12), (3, G.o_publish_q0), (5, G.o_pubrec), (3, G.o_puback), (3, G.o_pubcomp), (3, G.o_ack_good),
     (3, G.o_fire), (2, G.o_window), (1, G.o_advance_small), (3, G.o_lose_reconnect_persist), (1, G.o_lose_reconnect_clean),
     (2, G.o_reconnect_noack), (2, G.o_lose), (2, G.o_connack_ok), (1, G.o_build), (1, G.o_subscribe),
-    (3, G.o_resume_with_publish), (2, o_setid_any), (2, G.o_arm),
+    (3, G.o_resume_with_publish), (2, o_setid_any), (2, G.o_arm), (2, G.o_late_connack), (2, G.o_connack),
 ])
 POST_PERS = [
     [("build", 0), ("handlers", 0, 7), ("connect", 0, 0, 0, 0), ("rx", 0, "CONNACK", 0, 1), ("publish", 0, 1), ("settle", 0), ("idle", 300.0)],
@@ -688,6 +688,8 @@ POST_PERS = [
      ("fire", 2), ("lose", 0, 0), ("build", 0), ("handlers", 0, 7), ("connect", 0, 0, 0, 0), ("rx", 0, "CONNACK", 0, 1), ("settle", 0), ("idle", 300.0)],
     [("build", 0), ("lose", 0, 0), ("build", 0), ("connect", 0, 0, 0, 0), ("rx", 0, "CONNACK", 0, 1), ("settle", 0), ("idle", 300.0)],
     [("build", 0), ("connect", 0, 0, 1, 0), ("lose", 0, 0), ("build", 0), ("connect", 0, 0, 0, 0), ("rx", 0, "CONNACK", 0, 0), ("settle", 0), ("idle", 300.0)],
+    [("build", 0), ("handlers", 0, 7), ("connect", 0, 0, 0, 0), ("rx", 0, "CONNACK", 3, 0), ("lose", 0, 0), ("build", 0), ("handlers", 0, 7),
+     ("connect", 0, 0, 0, 0), ("rx", 0, "CONNACK", 0, 1), ("fire", 1), ("settle", 0), ("idle", 300.0)],
 ]
 
 
@@ -703,7 +705,7 @@ class C12(PrefixFaultProp):
     thorough_examples = 12000
     rule = ("Fault enumeration: every prefix of every generated persistent-session history (QoS 1/2 publishes in "
             "every stage, QoS 0 held back, acks, expiries, window changes, nested losses and reconnects) is cut by "
-            "each kind of loss, followed by one of six continuations: persistent reconnect, persistent reconnect "
+            "each kind of loss, followed by one of seven continuations: a persistent reconnect refused by the broker and then accepted, persistent reconnect, persistent reconnect "
             "with publishes before its CONNACK, clean reconnect with a publish before its CONNACK, three losses in "
             "a row (one before CONNACK), a rebuilt protocol lost before connect(), a clean connection lost before "
             "its CONNACK; then the broker answers everything and an idle tail runs. Oracle: reference model of the "
